@@ -36,12 +36,15 @@ class _NoCtx:
 
 
 def all_discrete(prog):
-    return all(s[2] in refmodel.DISCRETE for fn in prog["fns"].values() for s in fn["body"] if s[0] in ("draw", "vdist"))
+    return all(s[2] in refmodel.DISCRETE for fn in prog["fns"].values() for s in fn["body"] if s[0] in ("draw", "vdist", "vvdist"))
 
 
 def check_law(ctx, prog, ref, rargs, rkw, draw, n1, F, seed, fixed=None, fixed_paths=(), extra_name="extra", extra_ref=None,
-              tag="law", max_pairs=40, enum_limit=2048):
-    """fixed: nested dict of constrained values (sites in it are read, not tested); fixed_paths: set of leaf paths in it."""
+              tag="law", max_pairs=40, enum_limit=2048, switch_probe=None):
+    """fixed: nested dict of constrained values (sites in it are read, not tested); fixed_paths: set of leaf paths in it.
+    switch_probe(choices) -> True if the outcome switched the branch of a Cond relative to the starting trace: such a move
+    shows the other branch's hidden values at 'fixed' addresses under that Cond, which is outside what C04 claims - the exact
+    pmf test is then abandoned (counted), not failed."""
     c = ctx if ctx is not None else _NoCtx()
     fails, info = [], {}
     fixed_paths = set(fixed_paths)
@@ -67,6 +70,9 @@ def check_law(ctx, prog, ref, rargs, rkw, draw, n1, F, seed, fixed=None, fixed_p
             for i in range(n):
                 k = refmodel.outcome_key(lane(ch, i))
                 if k not in table:
+                    if switch_probe is not None and switch_probe(lane(ch, i)):
+                        det["switch"] = k
+                        return 1.0, {}
                     det["outside"] = k
                     return 0.0, {"outcome_outside_support": str(k)}
                 counts[k] += 1
@@ -82,6 +88,9 @@ def check_law(ctx, prog, ref, rargs, rkw, draw, n1, F, seed, fixed=None, fixed_p
             return stats.chi2_p([counts[k] for k in keys_sorted], probs / probs.sum())
 
         res = stats.two_stage(c, pfun, n1 * 4)
+        if "switch" in det and "outside" not in det:
+            info["law"] = "abandoned-cond-switch"
+            return fails, info
         if "outside" in det:
             fails.append((f"{tag}.outcome_outside_support|{F}", f"produced outcome {det['outside']} which has reference probability 0 (or contradicts the constraints)"))
         elif res:
@@ -183,6 +192,6 @@ def refmodel_is_cont(prog, path):
     a = path[-1]
     for fn in prog["fns"].values():
         for s in fn["body"]:
-            if s[0] in ("draw", "vdist") and s[1] == a:
+            if s[0] in ("draw", "vdist", "vvdist") and s[1] == a:
                 return s[2] in refmodel.CONTINUOUS
     return True
